@@ -186,9 +186,19 @@ func toSlice(v interface{}) []interface{} {
 	rv := reflect.ValueOf(v)
 	result := make([]interface{}, rv.Len())
 	for i := range result {
-		result[i] = rv.Index(i).Interface()
+		result[i] = fromReflect(rv.Index(i))
 	}
 	return result
+}
+
+// fromReflect returns the value held by v as an interface{}. A nil pointer
+// becomes nil so that it behaves like a JSON null instead of a non-nil
+// interface holding a typed nil pointer.
+func fromReflect(v reflect.Value) interface{} {
+	if v.Kind() == reflect.Ptr && v.IsNil() {
+		return nil
+	}
+	return v.Interface()
 }
 
 func isSliceType(v interface{}) bool {
